@@ -1,20 +1,34 @@
-// Native replay for dhcp.option_accounting / dhcp.option_wire_image: a DHCP message whose options include PAD (0) and END (255)
-// is parsed, serialized and re-parsed: same length, same option list (property C03).
+// Native replay for dhcp.option_accounting / dhcp.option_wire_image / dhcp.option_list_wire_image: a DHCP message whose options
+// include PAD (0) and END (255) is parsed, serialized and re-parsed: same length, same option list (property C03).
+// With a witness (W_code[i], W_len[i]) the option list of the counterexample is used; otherwise a fixed list.
 #include <tins/tins.h>
 #include "replay_util.h"
 using namespace Tins;
-int main(int, char**) {
+int main(int argc, char** argv) {
     std::vector<uint8_t> b(240, 0);
     b[0] = 1; b[1] = 1; b[2] = 6;
     b[236] = 0x63; b[237] = 0x82; b[238] = 0x53; b[239] = 0x63;
-    const uint8_t opts[] = {53, 1, 1, 0, 0, 255};        // message type = DISCOVER, PAD, PAD, END
-    b.insert(b.end(), opts, opts + sizeof opts);
+    std::vector<uint8_t> opts;
+    if (argc > 1) {
+        Replay r(argv[1]);
+        std::vector<uint8_t> codes = r.bytes("W_code", 2), lens = r.bytes("W_len", 2);
+        if (r.has("W_code") && !r.has("W_code[0l]")) { codes[0] = (uint8_t)r.num("W_code"); lens[0] = (uint8_t)r.num("W_len"); codes.resize(1); }
+        else if (!r.has("W_code[0l]") && !r.has("W_code[0]")) codes.clear();
+        for (size_t i = 0; i < codes.size(); ++i) {
+            opts.push_back(codes[i]);
+            if (codes[i] == 0 || codes[i] == 255) continue;
+            opts.push_back(lens[i]);
+            for (unsigned k = 0; k < lens[i]; ++k) opts.push_back((uint8_t)(0x41 + i + k));
+        }
+    }
+    if (opts.empty()) { const uint8_t fixed[] = {53, 1, 1, 0, 0, 255}; opts.assign(fixed, fixed + sizeof fixed); }        // message type = DISCOVER, PAD, PAD, END
+    b.insert(b.end(), opts.begin(), opts.end());
     ExactBuf in(b);
     DHCP p(in.p, (uint32_t)b.size());
     std::vector<uint8_t> y = p.serialize();
     DHCP q(y.data(), (uint32_t)y.size());
     printf("input %zu bytes, %zu options; serialization %zu bytes, re-parsed %zu options\n", b.size(), p.options().size(), y.size(), q.options().size());
-    if (y.size() != b.size() || q.options().size() != p.options().size()) { printf("DEFECT: END/PAD are single octets on the wire (RFC 2132) but were written with a length octet\n"); return 1; }
-    if (y != b) { printf("DEFECT: bytes differ\n"); return 1; }
+    if (y.size() != b.size() || q.options().size() != p.options().size()) { printf("DEFECT: the serialization does not parse back to the same option list\n"); return 1; }
+    if (y != b) { printf("DEFECT: bytes differ: the options of the parsed message are not written as they were read (RFC 2132)\n"); return 1; }
     printf("ok\n"); return 0;
 }
